@@ -144,7 +144,7 @@ def py_value(src, env, textual=False, numpy=False):
                  else m.group(0) + '.0', src)
     try:
         if textual:
-            src = re.sub(r'[A-Za-z_][A-Za-z_0-9]*',
+            src = re.sub(r'(?<![\w.])[A-Za-z_][A-Za-z_0-9]*',
                          lambda m: repr(float(env[m.group(0)]))
                          if m.group(0) in env else m.group(0), src)
             v = eval(src, {}, _np_env() if numpy else dict(PY_ENV))
@@ -213,10 +213,12 @@ EDGE_FUN = ['sqrt(2)/2', 'sqrt(4)', 'exp(1)', 'exp(0)+1', '2*sqrt(2)', 'EXP(1)']
 
 
 # ------------------------------------------------------------------ programs
-REG_NAMES = ['q', 'r', 'qr', 'anc', 'a0', 'reg_1', 'qQ', 'xs', 'w', 'data']
+REG_NAMES = ['q', 'r', 'qr', 'anc', 'a0', 'reg_1', 'qQ', 'xs', 'w', 'data', 'qregs', 'pix',
+             'if0', 'cxx', 'resetq']
 CREG_NAMES = ['c', 'm', 'cr', 'out', 'c0', 'meas_1']
-GATE_NAMES = ['g', 'foo', 'my_gate', 'blk', 'g2', 'rot', 'ent', 'k', 'mix', 'layer0']
-FORMALS = ['a', 'b', 'theta', 'phi', 'lam', 'x0', 't']
+GATE_NAMES = ['g', 'foo', 'my_gate', 'blk', 'g2', 'rot', 'ent', 'k', 'mix', 'layer0', 'gate1',
+              'barrier_', 'measure2', 'u3x']
+FORMALS = ['a', 'b', 'theta', 'phi', 'lam', 'x0', 't', 'ln2', 'pi_2', 'sinx', 'e1', 'sqrt2']
 QFORMALS = ['x', 'y', 'z', 'q0', 'q1', 'tgt', 'ctl']
 
 
@@ -450,7 +452,9 @@ def gen_program(rng, builtins, common, max_qubits=6, qiskit_ok=True):
     """A program of the supported subset that avoids the known reader defects.
     `builtins`: spelling -> (np, nv); `common`: spellings Qiskit's qelib1.inc also has."""
     p = Prog()
-    p.stmts.append(('include',))
+    core_only = qiskit_ok and rng.random() < 0.12      # no include: U, CX and user gates only
+    if not core_only:
+        p.stmts.append(('include',))
     nreg = rng.choice([1, 1, 2, 2, 3])
     names = rng.sample(REG_NAMES, nreg)
     sizes = [rng.randint(1, 3) for _ in range(nreg)]
@@ -459,6 +463,8 @@ def gen_program(rng, builtins, common, max_qubits=6, qiskit_ok=True):
     cnames = rng.sample(CREG_NAMES, rng.choice([0, 1, 1, 2]))
     pool = [g for g in (common if qiskit_ok else builtins) if g not in ('U', 'CX')
             and builtins[g][1] <= sum(sizes)]
+    if core_only:
+        pool = []
     regs = []        # declared so far
     pending = list(zip(names, sizes))
     rng.shuffle(pending)
